@@ -45,9 +45,12 @@ def contract(rep, S, f, clauses):
             if r.exctype != exc:
                 continue
             have = resolve(conj(r.path))
+            # the raise must be *for* this clause: the condition that directly guards it is part of the clause. (A later raise has the negation of every
+            # earlier guard on its path as well - an inverted `if isinstance(graph, np.ndarray): raise` would otherwise be "found" at the next TypeError.)
+            own = resolve(conj([r.path[-1]])) if r.path else frozenset()
             for alt in alts:
                 need_ = resolve(conj(alt))
-                if need_ <= have:
+                if need_ <= have and own and own <= need_:
                     hit = r
         if hit is None:
             rep.bad_form("CONTRACT." + label, fwhere(f), "no %s is raised when %s" % (exc, label.replace("-", " ")))
